@@ -291,6 +291,10 @@ class Mon(object):
         text = ' '.join([sd.get('text', '')] + list(sd.get('subspecs', ())))
         if any(k in text for k in ('since[', 'until[', 'unless[', 'S[', 'U[', 'W[')):
             return                      # rtamt's bounded since/until is quadratic in the window
+        import re
+        nums = [float(x) for iv in re.findall(r'\[([^\]]*)\]', text) for x in re.findall(r'\d+(?:\.\d+)?', iv)]
+        if self.kind.startswith('dt') and nums and max(nums) > 4:
+            return                      # the windows of the neighbour are 1000 times as many samples
         try:
             if self.kind.startswith('dt'):
                 p = tuple(sd.get('period') or (1, 's', 0.1))
